@@ -362,6 +362,43 @@ def finish(prop, tier, seed, level, merged, reg, rule, t0, extra_cov=None, stric
     return 1 if violations else 0
 
 
+def anchor_coverage(prop, seed, cases=3000, scale=700):
+    """Supporting information for the thorough tier: line coverage of the property's anchored files reached by a slice of
+    the campaign in an uninstrumented-by-sanitizers coverage build."""
+    try:
+        anchors = []
+        for l in open(os.path.join(VERIF, "properties.jsonl")):
+            d = json.loads(l)
+            if d["id"] == prop:
+                anchors = [f for f in d["anchors"]["files"] if f.startswith("m4ri/") and f.endswith((".c", ".h"))]
+        if not anchors:
+            return {}
+        b = vbuild.build(["small-cov"])["small-cov"]
+        d = os.path.join(RUN, "cov-%s" % prop)
+        shutil.rmtree(d, ignore_errors=True)
+        os.makedirs(d)
+        procs = []
+        for i in range(8):
+            env = dict(os.environ, LLVM_PROFILE_FILE=os.path.join(d, "p%d.profraw" % i), VF_TMP=d)
+            procs.append(subprocess.Popen([b, "check", prop, "--cases", str(cases), "--scale", str(scale), "--seed", str(seed_for(seed, prop, "cov", i)),
+                                           "--shard", str(i), "--nshards", "8", "--tier", "1"], stdout=subprocess.DEVNULL, stderr=subprocess.DEVNULL, env=env))
+        for pr in procs:
+            pr.wait()
+        prof = os.path.join(d, "all.profdata")
+        subprocess.run(["llvm-profdata-14", "merge", "-o", prof] + glob.glob(os.path.join(d, "*.profraw")), check=True)
+        files = [os.path.join(vbuild.REPO, a) for a in anchors]
+        r = subprocess.run(["llvm-cov-14", "report", b, "-instr-profile=" + prof] + files, stdout=subprocess.PIPE, stderr=subprocess.DEVNULL)
+        out = {}
+        for ln in r.stdout.decode().splitlines():
+            t = ln.split()
+            if len(t) >= 10 and (t[0].endswith(".c") or t[0].endswith(".h")):
+                out[t[0]] = t[9]  # line coverage column
+        shutil.rmtree(d, ignore_errors=True)
+        return out
+    except Exception as e:
+        return {"error": str(e)[-200:]}
+
+
 def prop_rule(binary, prop):
     return RULES.get(prop, "")
 
@@ -417,7 +454,10 @@ def main():
         strict = bool(plan.get("strict"))
         merged = generic_check(prop, tier, seed, plan, binaries, strict=strict)
         rule = subprocess.run([binaries[plan["cfgs"][0]], "rule", prop], stdout=subprocess.PIPE).stdout.decode().strip()
-        rc = finish(prop, tier, seed, PLANS[prop]["level"], merged, reg, rule, t0, strict=strict)
+        extra = None
+        if tier == "thorough" and not any("wrap" in c for c in plan["cfgs"]):
+            extra = dict(line_coverage_of_anchors=anchor_coverage(prop, seed))
+        rc = finish(prop, tier, seed, PLANS[prop]["level"], merged, reg, rule, t0, strict=strict, extra_cov=extra)
     except RuntimeError as e:
         log("infrastructure failure:", str(e)[-3000:])
         sys.exit(2)
